@@ -227,6 +227,22 @@ def legal_target_set(ts):
     return True
 
 
+# ---------------------------------------------------------------------- structural predicates of known findings
+def nested_history_under_deep(chart):
+    """a deep history whose parent has another history state further down (known finding: uscxml keeps one
+    shared bit set for all histories and derives per-history masks that are wrong / differ per back-end here)"""
+    hs = [n for n in chart.nodes if n.kind == 'history']
+    for h in hs:
+        if not h.deep: continue
+        for g in hs:
+            if g is not h and h.parent in g.parent.ancestors():
+                return True
+    return False
+
+
+FINDING_PREDICATES = {'nested_history_under_deep': nested_history_under_deep}
+
+
 # ---------------------------------------------------------------------- random generation
 def random_chart(rng, max_states=6, max_trans=5, p_hist=0.35, p_par=0.3, p_final=0.25, p_initial_elem=0.3,
                  p_content=0.5, p_invoke=0.15, name='rnd'):
